@@ -74,10 +74,10 @@ def run_task(task):
                 if r["status"] != "proved":
                     rec["model"] = r.get("model")
                     rec["reason"] = r.get("reason")
-                    rec["meta"] = ob.meta
+                    rec["meta"] = {k: v for k, v in (ob.meta or {}).items() if k != "replay"}
                     rec["trace"] = [f"{l}:{'T' if d else 'F'}" for l, d in ctx.trace][-30:]
                     m = r.get("_model")
-                    rp = ctx.ghost.get("replay")
+                    rp = (ob.meta or {}).get("replay") or ctx.ghost.get("replay")
                     if m is not None and rp is not None:
                         tmpl, terms = rp
                         vals = {}
